@@ -487,7 +487,7 @@ func ruleC10NilResults(c *Ctx) {
 								}
 							}
 							// `if flag && res == nil { skip }` where flag is a boolean parameter under which alone the callee returns (nil, nil)
-							if p, isParam := ifi.Cond.(*ssa.Parameter); isParam && tBool(p.Type()) {
+							if isBoolInput(ifi.Cond) {
 								inner := ifi.Block().Succs[0]
 								if os.Getenv("JSDEBUG") != "" {
 									i2, ok2 := inner.Instrs[len(inner.Instrs)-1].(*ssa.If)
@@ -996,7 +996,7 @@ func nilNilOnlyUnderFlag(callee *ssa.Function) bool {
 		}
 		under := false
 		for _, g := range guardsOf(ret) {
-			if p, isP := g.Cond.(*ssa.Parameter); isP && tBool(p.Type()) && g.Pol {
+			if isBoolInput(g.Cond) && g.Pol {
 				under = true
 			}
 			if x, k, equal, isEq := eqConst(g); isEq && k.IsNil() && equal {
@@ -1081,6 +1081,27 @@ func nonStringKeyGuarded(i ssa.Instruction) bool {
 			}
 			if k, ok := pair[1].(*ssa.Const); ok {
 				if v, ok := constInt(k); ok && v == int64(kString) {
+					return true
+				}
+			}
+		}
+	}
+	return false
+}
+
+// isBoolInput: v is a boolean option of the function: a bool parameter, or a bool field loaded from a parameter
+// (options bundled into a context struct or receiver).
+func isBoolInput(v ssa.Value) bool {
+	if v == nil || !tBool(v.Type()) {
+		return false
+	}
+	switch x := v.(type) {
+	case *ssa.Parameter:
+		return true
+	case *ssa.UnOp:
+		if fa, ok := x.X.(*ssa.FieldAddr); ok {
+			for _, src := range append(traceSources(fa.X), fa.X) {
+				if _, isP := src.(*ssa.Parameter); isP {
 					return true
 				}
 			}
